@@ -95,26 +95,38 @@ func rulesC19(c *Ctx) {
 		if f.Pkg == nil || c.P.Rel(f.Pkg.Pkg.Path()) != "wallet" || f.Parent() != nil || c.P.FuncKey(f) == fnSwapHelper {
 			continue
 		}
+		if c.P.IsNewFunc(f) && len(c.callersOf(f)) > 0 {
+			continue // a helper new on this tree is read as part of the operations that call it
+		}
 		fns = append(fns, f)
 	}
 	sort.Slice(fns, func(i, j int) bool { return c.P.FuncKey(fns[i]) < c.P.FuncKey(fns[j]) })
 	for _, f := range fns {
 		fk := c.P.FuncKey(f)
 		o := c.P.OriginsOf(f)
-		var submits, incrs []ssa.CallInstruction
+		var submits []ssa.CallInstruction
+		var incrs []ctxCall
 		for _, ci := range Calls(f) {
 			d := c.P.Describe(ci)
 			if c.isSubmit(d) {
 				submits = append(submits, ci)
 			}
-			if c.isIncr(d) {
-				incrs = append(incrs, ci)
+		}
+		for _, og := range c.OpContexts(f) {
+			if og.Fn.Parent() != nil {
+				continue
+			}
+			for _, ci := range Calls(og.Fn) {
+				if c.isIncr(c.P.Describe(ci)) {
+					incrs = append(incrs, ctxCall{og, ci})
+				}
 			}
 		}
 		// increments name an output keyset
-		for _, ic := range incrs {
+		for _, icc := range incrs {
+			ic := icc.CI
 			d := c.P.Describe(ic)
-			k := o.Of(d.Args[0])
+			k := icc.O.Of(d.Args[0])
 			okK := true
 			for _, a := range k.Alts() {
 				s := a.String()
@@ -230,11 +242,16 @@ func rulesC19(c *Ctx) {
 					"when the mint answers PENDING it keeps the submitted blank outputs and signs them later; the stored counter is advanced past them before the operation returns", whyP)
 			}
 			// B: no increment unless the submission succeeded (only increments reachable from this submission)
-			for _, ic := range incrs {
-				if reach, _ := o.ReachAvoiding(s, ic, NewCut()); !reach {
+			for _, icc := range incrs {
+				ic := icc.CI
+				site, _ := c.siteIn(f, ic).(ssa.CallInstruction)
+				if site == nil {
 					continue
 				}
-				ok, why := o.Requires(ic, okSubmit)
+				if reach, _ := o.ReachAvoiding(s, site, NewCut()); !reach {
+					continue
+				}
+				ok, why := c.RequireAt(ic, okSubmit)
 				// an increment may belong to another submission of the same function
 				if !ok && len(submits) > 1 {
 					any := false
@@ -242,7 +259,7 @@ func rulesC19(c *Ctx) {
 						cd2 := &Cond{Name: "submission succeeded", Match: func(ft *Fact, _ *Origins) bool {
 							return ft.Kind == "errnil" && ft.Pos && ft.A.K == "call" && ft.A.Call == s2
 						}}
-						if ok2, _ := o.Requires(ic, cd2); ok2 {
+						if ok2, _ := c.RequireAt(ic, cd2); ok2 {
 							any = true
 						}
 					}
@@ -251,7 +268,7 @@ func rulesC19(c *Ctx) {
 				R.Check("R1", fk, "counter advanced <= submission succeeded", c.P.InstrPos(ic), ok, "the counter is never advanced on a path where the submission failed", why)
 				// C: keyset and count consistent with the submitted outputs
 				id := c.P.Describe(ic)
-				k, n := o.Of(id.Args[0]).String(), o.Of(id.Args[1]).String()
+				k, n := icc.O.Of(id.Args[0]).String(), icc.O.Of(id.Args[1]).String()
 				okC, whyC := false, ""
 				for _, cr := range creators {
 					switch cr.S {
@@ -480,9 +497,18 @@ func (c *Ctx) c19Restore() {
 
 	// after every non-empty batch the counter is advanced by the delta before the next batch
 	var incr ssa.CallInstruction
-	for _, ci := range Calls(f) {
-		if c.isIncr(c.P.Describe(ci)) && batch.Blocks[ci.Block()] {
-			incr = ci
+	io := o // the context in which the increment's arguments are read
+	for _, og := range c.OpContexts(f) {
+		if og.Fn.Parent() != nil {
+			continue
+		}
+		for _, ci := range Calls(og.Fn) {
+			if !c.isIncr(c.P.Describe(ci)) {
+				continue
+			}
+			if site := c.siteIn(f, ci); site != nil && batch.Blocks[site.Block()] {
+				incr, io = ci, og
+			}
 		}
 	}
 	if incr == nil {
@@ -490,11 +516,10 @@ func (c *Ctx) c19Restore() {
 		return
 	}
 	cut := NewCut()
-	for _, e := range o.AllEdges() {
-		ft := o.EdgeFact(e)
-		if ft != nil && ft.Kind == "errnil" && ft.Pos && ft.A.K == "call" && ft.A.Call == incr {
-			cut.Edges[e] = true
-		}
+	advanced := errNilOf(incr, "counter advanced")
+	advanced.Via = func(g *ssa.Function) bool { return c.P.IsNewFunc(g) }
+	for e := range o.AcceptEdges(advanced) {
+		cut.Edges[e] = true
 	}
 	for b := range batch.Blocks {
 		for i, s := range b.Succs {
@@ -525,7 +550,7 @@ func (c *Ctx) c19Restore() {
 		"after any batch in which the mint returned signatures (spent or not) the stored counter moves past that batch", whyAdv)
 	// the amount added is the delta (C - S) with S in {0, C}; the keyset is the one being restored
 	d := c.P.Describe(incr)
-	k, amt := o.Of(d.Args[0]), o.Of(d.Args[1])
+	k, amt := io.Of(d.Args[0]), io.Of(d.Args[1])
 	okDelta := amt.K == "bin" && amt.S == "-" && amt.Args[0].String() == nextStart
 	why := "amount is " + short(amt.String(), 160)
 	if okDelta {
@@ -785,16 +810,31 @@ func (c *Ctx) c19LockSpan() {
 		if f.Pkg == nil || c.P.Rel(f.Pkg.Pkg.Path()) != "wallet" || f.Parent() != nil {
 			continue
 		}
+		if c.P.IsNewFunc(f) && len(c.callersOf(f)) > 0 {
+			continue // read as part of its callers
+		}
 		var reads, incrs, unlocks, rlocks []ssa.CallInstruction
-		for _, ci := range Calls(f) {
-			d := c.P.Describe(ci)
+		var all []ssa.CallInstruction
+		for _, g := range c.OpFuncs(f) {
+			if g.Parent() == nil {
+				all = append(all, Calls(g)...)
+			}
+		}
+		for _, ci0 := range all {
+			d := c.P.Describe(ci0)
+			// the call is read at the place of f through which it is executed (itself, or the call of the helper
+			// new on this tree that holds it)
+			ci, _ := c.siteIn(f, ci0).(ssa.CallInstruction)
+			if ci == nil {
+				continue
+			}
 			switch {
 			case d.Name == "wallet.(*Wallet).counterForKeyset" || (d.Iface != nil && d.Iface.Name() == "GetKeysetCounter"):
 				reads = append(reads, ci)
 			case c.isIncr(d):
 				incrs = append(incrs, ci)
 			case d.Name == "sync.(*RWMutex).Unlock" || d.Name == "sync.(*RWMutex).RUnlock" || d.Name == "sync.(*Mutex).Unlock":
-				if _, isCall := ci.(*ssa.Call); isCall {
+				if _, isCall := ci0.(*ssa.Call); isCall {
 					unlocks = append(unlocks, ci)
 				}
 			case d.Name == "sync.(*RWMutex).RLock":
